@@ -93,6 +93,9 @@ const _: () = {
         
         #[inline(always)]
         fn push(&mut self, param: Slice) {
+            // a route may capture more params than a handler can take (`LIMIT`):
+            // keep the first ones instead of writing out of `list`
+            if self.next >= Self::LIMIT {return}
             #[cfg(debug_assertions)] {
                 assert!(self.next < Self::LIMIT);
             }
